@@ -647,8 +647,8 @@ func Guard(r *Rec, what string, f func()) (panicked bool) {
 			buf = buf[:runtime.Stack(buf, false)]
 			// skip the frames of this function and of panic itself
 			st := string(buf)
-			if i := strings.Index(st, "panic("); i >= 0 {
-				st = st[i:]
+			if i := strings.LastIndex(st, "\npanic("); i >= 0 {
+				st = st[i+1:]
 			}
 			r.Fail(what+":"+SiteFromPanic(e, []byte(st)), "panic escaped %s: %v\n%s", what, e, firstLines(st, 30))
 			panicked = true
